@@ -25,8 +25,10 @@ def gen_history(g, rng, length, cfg=None):
             h.op_set()
         elif r < 0.9:
             h.op_mods()
-        else:
+        elif r < 0.96:
             h.op_attr()
+        else:
+            h.op_new_with_children()
         if len(h.items) == n0:
             continue
         bad = world.oracle_forest(h.w)
@@ -34,6 +36,9 @@ def gen_history(g, rng, length, cfg=None):
             h.problems.append((len(h.items) - 1, bad))
             break
         h.observe_forest()
+        if rng.random() < 0.25:
+            h.observe_aggregates()
+    h.observe_aggregates()
     return h
 
 
@@ -74,6 +79,65 @@ def default_args_oracle(ctx, g):
         ctx.add("oracle", "shared-default", "SymbolicExpression.attributes shared", {})
 
 
+def ctor_copy_oracle(ctx, g):
+    """constructors copy their iterable / mapping arguments: nodes built from ONE caller-owned object neither alias it nor each other"""
+    F, A = g.Section.Flag, g.SymbolicExpression.Attribute
+
+    def bad(what):
+        ctx.add("oracle", "shared-argument", what, {"what": what})
+    flags = {F.Readable}
+    s1, s2 = g.Section(name="a", flags=flags), g.Section(name="b", flags=flags)
+    flags.add(F.Writable)
+    s1.flags.add(F.Executable)
+    ctx.case("ctor-copy:Section.flags", True)
+    if s1.flags != {F.Readable, F.Executable} or s2.flags != {F.Readable}:
+        bad("Section(flags=x) keeps a reference to the caller's set (or shares it between sections)")
+    aux = {"k": g.AuxData(1, "uint8_t")}
+    for mk, nm in ((lambda: g.Module(name="m", aux_data=aux), "Module"), (lambda: g.IR(aux_data=aux), "IR")):
+        a, b = mk(), mk()
+        aux["later"] = g.AuxData(2, "uint8_t")
+        a.aux_data["own"] = g.AuxData(3, "uint8_t")
+        ctx.case("ctor-copy:%s.aux_data" % nm, True)
+        if set(a.aux_data) != {"k", "own"} or set(b.aux_data) != {"k"}:
+            bad("%s(aux_data=x) keeps a reference to the caller's dict (or shares it)" % nm)
+        del aux["later"]
+    attrs = {A.GOT}
+    y = g.Symbol("y")
+    for mk, nm in ((lambda: g.SymAddrConst(0, y, attrs), "SymAddrConst"), (lambda: g.SymAddrAddr(1, 0, y, y, attrs), "SymAddrAddr")):
+        a, b = mk(), mk()
+        attrs.add(A.PLT)
+        a.attributes.add(A.PCREL)
+        ctx.case("ctor-copy:%s.attributes" % nm, True)
+        if a.attributes != {A.GOT, A.PCREL} or b.attributes != {A.GOT}:
+            bad("%s(attributes=x) keeps a reference to the caller's set (or shares it)" % nm)
+        attrs.discard(A.PLT)
+        # and without the argument: every expression gets its own empty set (also the ones the loader builds)
+        c, d = (g.SymAddrConst(0, y), g.SymAddrConst(1, y)) if nm == "SymAddrConst" else (g.SymAddrAddr(1, 0, y, y), g.SymAddrAddr(1, 1, y, y))
+        c.attributes.add(A.GOT)
+        if d.attributes:
+            bad("%s() without attributes shares one default set" % nm)
+    sx = {0: g.SymAddrConst(0, y)}
+    b1, b2 = g.ByteInterval(size=8, symbolic_expressions=sx), g.ByteInterval(size=8, symbolic_expressions=sx)
+    sx[4] = g.SymAddrConst(4, y)
+    b1.symbolic_expressions[2] = g.SymAddrConst(2, y)
+    ctx.case("ctor-copy:ByteInterval.symbolic_expressions", True)
+    if sorted(b1.symbolic_expressions) != [0, 2] or sorted(b2.symbolic_expressions) != [0]:
+        bad("ByteInterval(symbolic_expressions=x) keeps a reference to the caller's dict (or shares it)")
+    contents = bytearray(b"abcd")
+    b3, b4 = g.ByteInterval(contents=contents), g.ByteInterval(contents=contents)
+    contents[0] = 0
+    b3.contents[1] = 0
+    ctx.case("ctor-copy:ByteInterval.contents", True)
+    if bytes(b3.contents) != b"a\0cd" or bytes(b4.contents) != b"abcd":
+        bad("ByteInterval(contents=x) keeps a reference to the caller's bytearray (or shares it)")
+    edges = {g.Edge(g.ProxyBlock(), g.ProxyBlock())}
+    i1, i2 = g.IR(cfg=edges), g.IR(cfg=edges)
+    i1.cfg.clear()
+    ctx.case("ctor-copy:IR.cfg", True)
+    if len(i2.cfg) != 1 or len(edges) != 1:
+        bad("IR(cfg=x) keeps a reference to the caller's collection (or shares it)")
+
+
 def run(ctx):
     g = gtirb_from_repo.load()
     nh, ln = (60, 30) if ctx.quick else (1200, 60)
@@ -92,6 +156,7 @@ def run(ctx):
             ctx.add("oracle", "forest-inconsistent:item%d" % h.items[idx][0], "after %s: %s" % (h.items[idx], "; ".join(bad[:3])),
                     {"items": h.items[: idx + 1], "problems": bad[:10]})
     default_args_oracle(ctx, g)
+    ctor_copy_oracle(ctx, g)
     for shape in ("setitem-same-list", "setslice-same-list"):
         w, _ = world.d4_probe(g, shape)
         bad = world.oracle_forest(w)
